@@ -719,3 +719,43 @@ func NestedTwinOp(r *core.Rng, s *Schema, typename string) *Def {
 	}
 	return nil
 }
+
+// CaseFoldDefs: a fragment selecting leaf field `x` and an operation that spreads it next to
+// another field under the alias `X` (same letters, other case): Go field names stay distinct
+// (X vs the fragment's field), JSON keys differ only by case.
+func CaseFoldDefs(r *core.Rng, s *Schema) []*Def {
+	noReq := func(f *FieldDef) bool {
+		for _, a := range f.Args {
+			if a.Type.NonNull && a.Default == "" {
+				return false
+			}
+		}
+		return true
+	}
+	for _, f := range s.FieldsOf("Query") {
+		td := s.Get(f.Type.Base())
+		if td == nil || td.Kind != "OBJECT" || !noReq(f) {
+			continue
+		}
+		var a, c *FieldDef
+		for _, l := range td.Fields {
+			if !s.IsLeaf(l.Type.Base()) || !noReq(l) || strings.ToUpper(l.Name) == l.Name {
+				continue
+			}
+			if a == nil {
+				a = l
+			} else if c == nil && l.Type.String() != a.Type.String() {
+				c = l
+			}
+		}
+		if a == nil || c == nil {
+			continue
+		}
+		up := strings.ToUpper(a.Name)
+		return []*Def{
+			{Kind: "fragment", Name: "ZFold", Text: fmt.Sprintf("fragment ZFold on %s {\n  %s\n}\n", td.Name, a.Name)},
+			{Kind: "query", Name: "ZCaseFold", Text: fmt.Sprintf("query ZCaseFold {\n  %s {\n    ...ZFold\n    %s: %s\n  }\n}\n", f.Name, up, c.Name)},
+		}
+	}
+	return nil
+}
